@@ -1,7 +1,9 @@
 #!/bin/bash
 # usage: tools/try_seed.sh <PROP> <seed_dir_with patch.diff demo.py> [tier]
 # 1. validates the seed in a scratch worktree (suite still passes, demo fails with / passes without)
-# 2. applies it to /repo, runs ./check PROP, reverts.  Prints a one-line verdict.
+# 2. runs ./check PROP against the seed.  Default: applies it to /repo, runs, reverts (git checkout -- .).
+#    With TRY_SEED_WT=1 the check analyses the patched scratch worktree instead (VF_REPO), so that /repo
+#    stays untouched while other checks are running.  Prints a one-line verdict.
 set -u
 P=$1; D=$(realpath $2); T=${3:-quick}
 W=/tmp/tryseed_$$
@@ -11,14 +13,22 @@ PYTHONPATH=$W /venv/bin/python $D/demo.py >/dev/null 2>&1; base=$?
 git apply $D/patch.diff || { echo "SEED-INVALID patch does not apply"; cd /; git -C /repo worktree remove --force $W; exit 9; }
 PYTHONPATH=$W /venv/bin/python $D/demo.py >/dev/null 2>&1; mut=$?
 tests=$(PYTHONPATH=$W /venv/bin/python -m pytest -q -p no:cacheprovider -x tests 2>&1 | tail -1)
-cd /; git -C /repo worktree remove --force $W
 echo "seed $D: demo pristine rc=$base, demo patched rc=$mut, suite: $tests"
-if [ $base -ne 0 ] || [ $mut -eq 0 ]; then echo "SEED-INVALID demo does not discriminate"; exit 9; fi
-case "$tests" in *failed*|*error*) echo "SEED-INVALID suite fails"; exit 9;; esac
-git -C /repo apply $D/patch.diff || exit 9
-cd /verif; ./check $P $T --no-evidence > /tmp/tryseed_$$.log 2>&1; rc=$?
-git -C /repo checkout -- . 
+bad=0
+if [ $base -ne 0 ] || [ $mut -eq 0 ]; then echo "SEED-INVALID demo does not discriminate"; bad=1; fi
+case "$tests" in *failed*|*error*) echo "SEED-INVALID suite fails"; bad=1;; esac
+if [ $bad -eq 1 ]; then cd /; git -C /repo worktree remove --force $W; exit 9; fi
+cd /verif
+if [ -n "${TRY_SEED_WT:-}" ]; then
+  VF_REPO=$W ./check $P $T --no-evidence > /tmp/tryseed_$$.log 2>&1; rc=$?
+  git -C /repo worktree remove --force $W
+else
+  git -C /repo worktree remove --force $W
+  git -C /repo apply $D/patch.diff || exit 9
+  ./check $P $T --no-evidence > /tmp/tryseed_$$.log 2>&1; rc=$?
+  git -C /repo checkout -- .
+fi
 grep -E "^VIOLATION|HARNESS-ERROR|INCONCLUSIVE" /tmp/tryseed_$$.log | head -5
 head -1 /tmp/tryseed_$$.log | cut -c1-200
 [ $rc -eq 1 ] && echo "DETECTED $P $D" || echo "MISSED $P $D (rc=$rc)"
-rm -f /tmp/tryseed_$$.log; rm -rf /verif/evidence/replays
+rm -f /tmp/tryseed_$$.log /verif/evidence/replays/$P-$T-*.json
